@@ -925,7 +925,14 @@ pub fn gen_co_case(bytes: &[u8], cp: &CoProfile) -> CoCase {
         stack.push(match k {
             0 => Adapter::Map,
             1 => Adapter::Enumerate,
-            2 => Adapter::Take(c.choice(n + 3)),
+            2 => {
+                // all n >= 0: mostly around the source length, sometimes huge
+                if c.coin(28) {
+                    Adapter::Take([usize::MAX, usize::MAX / 2 + 1, 1usize << 33, u32::MAX as usize][c.choice(4)])
+                } else {
+                    Adapter::Take(c.choice(n + 3))
+                }
+            }
             _ => {
                 if cp.saturate {
                     Adapter::Limit(c.weighted(&[(1usize, 30), (2, 30), (3, 20), (5, 8), (0, 12)]))
@@ -1072,6 +1079,9 @@ fn co_labels(case: &CoCase, out: &CoOut, f: &CoFacts) -> Vec<&'static str> {
         l.push("source_empty");
     }
     if let Some(t) = case.take_min() {
+        if t > (1 << 20) {
+            l.push("take_huge");
+        }
         l.push(if t == 0 {
             "take_0"
         } else if t < n {
